@@ -8,7 +8,7 @@ open List
 
 macro "acct" : tactic =>
   `(tactic| (simp [St.lose, St.giveBack, St.push, St.pop, St.create, St.drainBuf, St.handOff, St.handOffLost,
-      inHand, gotOf, sentOf, backOf, freshVals, Op.vals, St.placed, St.parked, St.owed, St.sdv, count_append,
+      P.inHand, gotOf, sentOf, backOf, freshVals, Op.vals, St.placed, St.parked, St.owed, St.sdv, count_append,
       count_cons, count_nil] <;> omega))
 
 theorem of_some_eq {α β} {X : α × β} {a : α} {b : β} (h : some X = some (a, b)) : X.1 = a ∧ X.2 = b := by
@@ -126,7 +126,7 @@ theorem SameAcct.trans {a b c : St} (h1 : SameAcct a b) (h2 : SameAcct b c) : Sa
    h2.rdone.trans h1.rdone, h2.sentOk.trans h1.sentOk, h2.sdone.trans h1.sdone, h2.returned.trans h1.returned⟩
 
 theorem StepOk.ofSame {fl s s' p p'} (hI : Inv fl s → Inv fl s') (hA : SameAcct s s')
-    (h1 : inHand p' = inHand p) (h2 : gotOf p' = gotOf p) (h3 : sentOf p' = sentOf p) (h4 : backOf p' = backOf p) :
+    (h1 : P.inHand p' = P.inHand p) (h2 : gotOf p' = gotOf p) (h3 : sentOf p' = sentOf p) (h4 : backOf p' = backOf p) :
     StepOk fl s p s' p' [] := by
   refine ⟨hI, by simp [hA.created], ?_, ?_, ?_, ?_⟩
   · intro v; simp [h1, hA.placed v]
@@ -265,22 +265,24 @@ theorem capOk_handOff {fl : Flavour} {s : St} (h : capOk fl s) (hf : fl.fam = .r
   rw [hb]; exact h
 
 theorem Inv.handOff {fl s} (h : Inv fl s) (hf : fl.fam = .rv) (p r v) : Inv fl (s.handOff p r v) := by
-  refine ⟨?_, ?_, ?_, capOk_handOff h.cap hf _ rfl, ?_, ?_⟩
+  refine ⟨?_, ?_, ?_, ?_, capOk_handOff h.cap hf _ rfl, ?_, ?_⟩
   · have hb : s.buf = [] := by
       have := h.cap; unfold capOk Flavour.capOf at this; simpa [hf] using this
     simp [St.handOff, h.seq, hb]
   · exact Sublist.append h.sub (Sublist.refl _)
   · intro x; simp [St.handOff, count_append, h.cons x]; omega
+  · intro hd; simp [St.handOff, h.nodrop hd]
   · simp [St.handOff, h.tagS]
   · simp [St.handOff, h.tagR]
 
 theorem Inv.handOffLost {fl s} (h : Inv fl s) (hf : fl.fam = .rv) (p v) : Inv fl (s.handOffLost p v) := by
-  refine ⟨?_, ?_, ?_, capOk_handOff h.cap hf _ rfl, ?_, h.tagR⟩
+  refine ⟨?_, ?_, ?_, ?_, capOk_handOff h.cap hf _ rfl, ?_, h.tagR⟩
   · have hb : s.buf = [] := by
       have := h.cap; unfold capOk Flavour.capOf at this; simpa [hf] using this
     simp [St.handOffLost, h.seq, hb]
   · exact h.sub.trans (sublist_append_left _ _)
   · intro x; simp [St.handOffLost, count_append, h.cons x]; omega
+  · intro hd; simp [St.handOffLost] at hd
   · simp [St.handOffLost, h.tagS]
 
 theorem rvSendStep_ok (fl : Flavour) (hf : fl.fam = .rv) (s t f h v q) :
